@@ -17,7 +17,7 @@ def gen_cases(ctx, out):
     n = 0
     stats = []
     with open(out, "w") as f:
-        runs = [("Balance.gen2.cfg", None), ("Balance.ident1.cfg", None), ("Balance.ident2.cfg", None)]
+        runs = [("Balance.gen2.cfg", None), ("Balance.ident1.cfg", None), ("Balance.ident2.cfg", None), ("Balance.sub3.cfg", None)]
         if ctx.tier == "thorough":
             runs.append(("Balance.gen3p.cfg", None))
             runs.append(("Balance.sim.cfg", "num=%d" % 5000))
@@ -31,7 +31,14 @@ def gen_cases(ctx, out):
             else:
                 r = ctx.need(ctx.tlc("Balance", cfg, timeout=900, name="gen"), "case generation " + cfg)
             k = 0
-            for raw in r.printed_raw("CASE"):
+            raws = r.printed_raw("CASE")
+            if cfg == "Balance.sub3.cfg" and ctx.tier == "quick":
+                # quick runs a seeded third of this family (thorough: all of it)
+                import random as _r
+                raws = sorted(raws)
+                _r.Random(ctx.seed).shuffle(raws)
+                raws = raws[:len(raws) // 3]
+            for raw in raws:
                 f.write(vlib.tla_unquote(raw) + "\n")
                 k += 1
             n += k
